@@ -34,6 +34,11 @@ def shards(tier, seed):
            for i in range(16)]
     # enumerated duels on one leaf (see _duels): 1 family per shard in the quick tier, all 22 in thorough
     fams = F.rotate(F.FAMILIES, seed * 5, 5 if tier == 'quick' else 22)
+    if tier == 'quick':
+        # always: one family with byte-string values (fs: compared with memcmp), one with float values, one with
+        # object values; the other two rotate
+        fixed = ['fs', ['IF', 'LF', 'QF', 'UF'][seed % 4], ['IO', 'LO', 'OO', 'QO', 'UO'][seed % 5]]
+        fams = fixed + [f for f in fams if f not in fixed][:2]
     out += [{'mode': 'duel', 'fams': [f], 'tier': tier} for f in fams]
     return out
 
